@@ -115,6 +115,8 @@ void harness(void)
 		ASSERT(qsv_gmp_live == live0, "C18: the scanner clears every temporary number on every path, accepted or rejected (meaningful in the TOKENS variant of the model)");
 	}
 	ASSERT(0 <= n && n <= len, "C11: the scanner consumes at most the string");
+	{ int anyd = 0; for (i = 0; i < NB; i++) if (i < n && buf[i] >= '0' && buf[i] <= '9') anyd = 1;
+	  ASSERT(n == 0 || anyd, "C10/C11: what is consumed as a number contains at least one digit (a lone sign or dot is not a number)"); }
 	ASSERT(DENV(var) != 0, "C11: the result is a rational with non-zero denominator");
 #ifdef QSV_GMP_TOKENS
 	mpq_clear(var);
